@@ -24,6 +24,9 @@ Copy i uses two letters (p, q); the kinds of classes of a copy:
              with the same non-atom child twice
   variant H: C = p^8 followed by a Dyck word (a product with eight equal atoms): the spurious solution of the system agrees with the counts
              below order 6
+  variant V: C = p^8 Vd + g A with A = (p|q)* = eps + p A + q A, Dk the Dyck words and Vd = A - Dk (the words that are not Dyck words)
+             only obtainable as the complement of the second union rule A = Vd + Dk: the spurious power-series solution of the system
+             (the other branch of Dk) is -x^6 + ..., it first differs from the counts at order 6 and sympy lists it first
   variant Z: as Y, but the pack offered for C keeps its strategies in an expansion set (verification strategies first in pack order)
   variant S: C = (p|q)+ = X + swap(X): a union rule with the *same* child class twice, told apart by the child index only
 Root R = g + C1 + ... + Ck  (`g` a one-letter atom). Everything the oracle needs is generated directly from these
@@ -110,6 +113,13 @@ def _words(name, n, sig):
         return [w for w in _dyck(p, q, n) if w]
     if kind == "Dk":
         return _dyck(p, q, n)
+    if kind == "Vd":
+        dy = set(_dyck(p, q, n))
+        return [t for t in _tails(p, q, n) if t not in dy]
+    if kind == "hV":
+        return [p * 8 + w for w in _words("Vd" + k, n - 8, sig)] if n >= 8 else []
+    if kind == "gA":
+        return ["g" + t for t in _tails(p, q, n - 1)] if n >= 1 else []
     if kind == "Ev":
         return [p * n] if n % 2 == 0 else []
     if kind == "Od":
@@ -133,6 +143,8 @@ def _words(name, n, sig):
             return _dyck(p, q, n)
         if v == "H":
             return [p * 8 + w for w in _dyck(p, q, n - 8)] if n >= 8 else []
+        if v == "V":
+            return _words("hV" + k, n, sig) + _words("gA" + k, n, sig)
         if v == "Q":
             return _words("Aq" + k, n, sig) + _words("Y" + k, n, sig) + _words("gPq" + k, n, sig)
         if v == "S":
@@ -229,6 +241,13 @@ class GUnion(_Table, DisjointUnionStrategy):
         if children is None:
             children = self.decomposition_function(c)
         return tuple(W(obj) if str(obj) in _words(ch.name, len(obj), ch.sig) else None for ch in children)
+
+
+class GUnion2(GUnion):
+    """a second table of union rules (variant V: a class with two union rules)"""
+
+    def formal_step(self):
+        return "split otherwise"
 
 
 class GProd(_Table, CartesianProductStrategy):
@@ -370,7 +389,7 @@ class GBrute(VerificationStrategy):
     def verified(self, c):
         if not isinstance(c, GL) or c.name[:-1] not in self.kinds:
             return False
-        if c.name[:-1] == "A" and c.sig[int(c.name[-1])] == "N":
+        if c.name[:-1] == "A" and c.sig[int(c.name[-1])] in ("N", "V"):
             return False  # in an N copy A is specified by rules
         if c.name[:-1] == "C" and c.sig[int(c.name[-1])] == "W":
             return False  # in a W copy C is decomposed by the outer pack
@@ -415,6 +434,7 @@ class GBrute(VerificationStrategy):
 
 def inner_pack(sig):
     union, prod = {}, {}
+    union2 = {}
     sym, point = {}, {}
     for k, v in ((str(i), x) for i, x in enumerate(sig)):
         if v == "W":
@@ -425,6 +445,17 @@ def inner_pack(sig):
             continue
         if v == "H":  # p^8 followed by a Dyck word: the two power-series solutions of the system agree below order 6
             prod["C" + k] = ("Y" + k,) * 8 + ("Dk" + k,)
+            union["Dk" + k] = ("Eps" + k, "Nk" + k)
+            prod["Nk" + k] = ("Y" + k, "Dk" + k, "T" + k, "Dk" + k)
+            continue
+        if v == "V":  # p^8 (A - Dk) + g A: the complement of the second union rule of A is the only rule of Vd
+            union["C" + k] = ("hV" + k, "gA" + k)
+            prod["hV" + k] = ("Y" + k,) * 8 + ("Vd" + k,)
+            prod["gA" + k] = ("G", "A" + k)
+            union["A" + k] = ("Eps" + k, "pA" + k, "qA" + k)
+            prod["pA" + k] = ("Y" + k, "A" + k)
+            prod["qA" + k] = ("T" + k, "A" + k)
+            union2["A" + k] = ("Vd" + k, "Dk" + k)
             union["Dk" + k] = ("Eps" + k, "Nk" + k)
             prod["Nk" + k] = ("Y" + k, "Dk" + k, "T" + k, "Dk" + k)
             continue
@@ -472,6 +503,9 @@ def inner_pack(sig):
     if "K" in sig:
         return StrategyPack(initial_strats=[GUnion(union), GProd(prod), GSym(sym), GPoint(point)], inferral_strats=[], expansion_strats=[],
                             ver_strats=[AtomStrategy(), GPackVer2(["X"]), GBrute(["X", "Pq", "Ps", "A"])], name="inner")
+    if union2:
+        return StrategyPack(initial_strats=[GUnion(union), GUnion2(union2), GProd(prod), GSym(sym), GPoint(point)], inferral_strats=[],
+                            expansion_strats=[], ver_strats=[AtomStrategy(), GBrute(["X", "Pq", "Ps", "A"])], name="inner")
     return StrategyPack(initial_strats=[GUnion(union), GProd(prod), GSym(sym), GPoint(point)], inferral_strats=[], expansion_strats=[],
                         ver_strats=[AtomStrategy(), GBrute(["X", "Pq", "Ps", "A"])], name="inner")
 
